@@ -286,7 +286,7 @@ fn config_a(rng: &mut ChaCha8Rng) -> CircuitConfig {
 pub fn case_a<C: GenericConfig<D, F = F>>(seed: u64, case: u64, quick: bool) -> Acc {
     let mut acc = Acc::default();
     let mut rng = crate::mon::case_rng(seed, 2_001, case);
-    let opts = GenOpts { n_ops: rng.gen_range(5..if quick { 70 } else { 160 }), lookups: false, hashing: rng.gen_bool(0.4), extension: rng.gen_bool(0.6), max_table_len: 0 };
+    let opts = GenOpts { n_ops: rng.gen_range(5..if quick { 70 } else { 160 }), lookups: false, hashing: rng.gen_bool(0.4), extension: rng.gen_bool(0.6), max_table_len: 0, only_base2: false };
     let config = config_a(&mut rng);
     let s = match subject::<C>(&mut rng, &opts, config, &mut acc) {
         Some(s) => s,
@@ -466,7 +466,7 @@ pub fn case_b<C: GenericConfig<D, F = F>>(seed: u64, case: u64, quick: bool) -> 
     let mut acc = Acc::default();
     let mut rng = crate::mon::case_rng(seed, 2_002, case);
     let qdf = [8usize, 7, 9, 12, 7, 15, 16, 11][(case % 8) as usize]; // every circuit hashes its public inputs with a degree-7 gate, so 7 is the smallest admissible factor
-    let opts = GenOpts { n_ops: rng.gen_range(5..if quick { 60 } else { 140 }), lookups: false, hashing: rng.gen_bool(0.4), extension: rng.gen_bool(0.5), max_table_len: 0 };
+    let opts = GenOpts { n_ops: rng.gen_range(5..if quick { 60 } else { 140 }), lookups: false, hashing: rng.gen_bool(0.4), extension: rng.gen_bool(0.5), max_table_len: 0, only_base2: false };
     let config = config_b(&mut rng, qdf);
     let mut pow_config = config.clone();
     let s = match subject::<C>(&mut rng, &opts, config, &mut acc) {
